@@ -725,6 +725,19 @@ func ruleTypeSwitch(c *RC) *RuleResult {
 					}
 				}
 			}
+			// ... or by an assignment to a field of the object under construction in the maker itself
+			ast.Inspect(mk.Decl.Body, func(n ast.Node) bool {
+				if as, ok := n.(*ast.AssignStmt); ok {
+					for _, l := range as.Lhs {
+						if sel, ok := ast.Unparen(l).(*ast.SelectorExpr); ok {
+							if sl := mk.Pkg.TypesInfo.Selections[sel]; sl != nil && sl.Kind() == types.FieldVal && namedName(sl.Recv()) == "Payload" {
+								set[sel.Sel.Name] = true
+							}
+						}
+					}
+				}
+				return true
+			})
 			callsSetter := func(name string) bool {
 				found := false
 				for _, fn := range c.Prog.sortedFuncs() {
